@@ -3,7 +3,7 @@
 # worktree and records the verdict in seeded/<id>/check_result.txt. Extra checks per seed may be listed in seeded/<id>/also.txt.
 cd "$(dirname "$0")/.."
 export MUT_SLOT=${MUT_SLOT:-1}
-for d in seeded/C*-[AB]; do
+for d in seeded/C*-[A-D]; do
   id=$(basename $d); prop=${id%-*}
   : > $d/check_result.txt
   for p in $prop $(cat $d/also.txt 2>/dev/null); do
